@@ -247,17 +247,17 @@ Qed.
 Lemma urun_binv c u D acc ops b : 0 < u <= D -> urun (binit false c u D acc) ops = Some b -> BInv b.
 Proof. intros H E. exact (u_b _ (urun_inv ops _ _ (uinit_inv c u D acc H) E)). Qed.
 
-(* Order from spacing, for ANY history of the continuous belt store (arbitrary one-by-one interrupts, as an accumulating
+(* Order from spacing, for ANY history of either belt store (arbitrary one-by-one interrupts, as an accumulating
    conveyor produces them): if at the instant an item is offered no item on the belt is closer than one slot to an item
    that entered before it (C13's "never overlapping"), the item offered is the oldest one on the belt (C12's order). *)
-Theorem fifo_when_spaced c u D acc ops b i b' g :
-  0 < u <= D -> brun (binit false c u D acc) ops = Some b ->
+Theorem fifo_when_spaced sl c u D acc ops b i b' g :
+  0 < u <= D -> brun (binit sl c u D acc) ops = Some b ->
   (forall x, In x (moving b) -> dead x = false) ->
   StronglySorted (ahead (bu b) (bclock b)) (moving b) ->
   bstep b (BReady i) = Some (b', g) ->
   exists x m, moving b = x :: m /\ mid x = i.
 Proof.
-  intros H E uL uO ST. destruct (brun_inv ops _ _ (binit_inv false c u D acc H) E) as (uB & _).
+  intros H E uL uO ST. destruct (brun_inv ops _ _ (binit_inv sl c u D acc H) E) as (uB & _).
   simpl in ST. destruct (find_item i (moving b)) as [x|] eqn:F; [|discriminate].
   destruct (running x && (due x =? bclock b)) eqn:G; [|discriminate].
   apply andb_true_iff in G. destruct G as (G1 & G2). apply Z.eqb_eq in G2.
